@@ -3,7 +3,7 @@
    [step true k] / [pstep true kb ko] are the state machines of the code after
    fixes/C06-discount-validation.patch; [false] is the code as it is in /repo. *)
 From Coq Require Import List Arith QArith Bool Lia.
-From AIT Require Import Base.Qx C06.Model C06.Spec C06.ProofsProb C06.ProofsModel C06.ProofsEffect C06.ProofsConv C06.ProofsAmdp C06.ProofsAmdpAcc C06.ModelCoop C06.SpecCoop C06.ProofsCoop.
+From AIT Require Import Base.Qx C06.Model C06.Spec C06.ProofsProb C06.ProofsModel C06.ProofsEffect C06.ProofsConv C06.ProofsAmdp C06.ProofsAmdpAcc C06.ProofsAmdpSpec C06.ModelCoop C06.SpecCoop C06.ProofsCoop.
 Import ListNotations.
 Local Open Scope Q_scope.
 
@@ -212,6 +212,28 @@ Theorem amdp_valid_tables : forall fixed k S1 A cs, (fixed = true \/ k = Sparse)
     amdp_row_valid (amdp_finish_row fixed k s (row (nth a (fst TR) []) s) (nthq (row (snd TR) s) a)).
 Proof. exact amdp_valid_tables_lemma. Qed.
 Print Assumptions amdp_valid_tables.
+
+(* WHICH normaliser: the accumulators of the loop are exactly the filtered sums of Spec.v — the mass that
+   normalises row (a,s) is the accumulated mass of the counted contributions (p further than 1e-6 from 0),
+   not the number of sampled beliefs; cells and rewards likewise.  This is what the driver's oracle
+   Spec.amdp_spec_okb evaluates on the implementation's output. *)
+Theorem amdp_accumulate_spec : forall k S1 A cs a s, Forall (contrib_ok S1 A) cs -> (a < A)%nat -> (s < S1)%nat ->
+  let TR := amdp_accumulate k S1 A cs in
+  qsum (row (nth a (fst TR) []) s) == amdp_mass cs a s /\
+  (forall s1, (s1 < S1)%nat -> nthq (row (nth a (fst TR) []) s) s1 == amdp_cell cs a s s1) /\
+  nthq (row (snd TR) s) a == amdp_rsum k cs a s.
+Proof. exact amdp_accumulate_spec_lemma. Qed.
+Print Assumptions amdp_accumulate_spec.
+
+Theorem amdp_normaliser : forall k S1 A cs a s, Forall (contrib_ok S1 A) cs -> (a < A)%nat -> (s < S1)%nat ->
+  epsS < amdp_mass cs a s ->
+  let TR := amdp_accumulate k S1 A cs in
+  let out := amdp_finish_row true k s (row (nth a (fst TR) []) s) (nthq (row (snd TR) s) a) in
+  fst out = map (fun x => x / qsum (row (nth a (fst TR) []) s)) (row (nth a (fst TR) []) s) /\
+  qsum (row (nth a (fst TR) []) s) == amdp_mass cs a s /\
+  (k = Dense -> snd out = XFin (nthq (row (snd TR) s) a / qsum (row (nth a (fst TR) []) s))).
+Proof. exact amdp_normaliser_lemma. Qed.
+Print Assumptions amdp_normaliser.
 
 Theorem contrib_checker_sound : forall S1 A c, contrib_okb S1 A c = true -> contrib_ok S1 A c.
 Proof. exact contrib_okb_sound. Qed.
